@@ -252,3 +252,102 @@ route_relays = Contract(
     dynamic_types={"self": {"layout_plan": ty.TOpaque("plan"), "relay_network": ty.TOpaque("relays"), "diagnostics": ty.TOpaque("diag")}},
     properties=("C12", "C08"), min_obligations=3, no_replay=True)
 CONTRACTS += [route_relays, get_placement, nid_for_edge, route_signal, create_chain]
+
+
+# =================================================================================================
+# ConnectionPlanner._restore_preserved_connection (C08): a wire that a memory cell / latch added outside the routed edge
+# set is re-attached unchanged ONLY when its two ends are within the span limit (or a placement is missing); otherwise the
+# relay network is asked for a path between the two positions, on the wire's own colour, under a network id that no
+# routed edge and no other preserved wire has (negative, counted up), and the chain is built for exactly this wire's ends,
+# signal, colour and sides; when no path exists the layout attempt is flagged as failed (so that plan_layout retries).
+# Unbounded (pyvc; loop-free).  The distance is abstract: any non-negative real.
+# =================================================================================================
+ADDED_WIRES, DIST_CALLS = [], []
+
+
+def _dist(ex, a):
+    DIST_CALLS.append(tuple(a.args))
+    d = z3.Real("distance_between_ends")
+    ex.assume(d >= 0)
+    return d
+
+
+def _add_wire(ex, a):
+    ADDED_WIRES.append(a.args[0])
+    return None
+
+
+def _route_p(ex, a):
+    ROUTE_CALLS.append((a.source_pos, a.sink_pos, a.signal_name, a.wire_color, a.network_id))
+    from pyvc.ghost import ghost
+    return ghost(ex.args_ns.connection, "relay_path", ty.TOpt(ty.TObj("RelayPath", only=("RelayPath",))))
+
+
+def _get_placement_p(ex, a):
+    from pyvc.ghost import ghost
+    holder = ex.args_ns.connection
+    which = "src" if a.args[0] is holder.source_entity_id else "dst"
+    return ghost(holder, "placement_" + which, _PLACEMENT)
+
+
+math_dist = Contract(qualname="math::dist", params={"args": _OPQ}, effect=_dist, verify=False, note="Euclidean distance: some non-negative real (the value is not interpreted)")
+add_wire = Contract(qualname="dsl_compiler/src/layout/layout_plan.py::LayoutPlan.add_wire_connection", params={"args": _OPQ}, effect=_add_wire, verify=False,
+                    note="appends the wire to the plan (recorded)")
+route_signal_p = Contract(qualname="dsl_compiler/src/layout/connection_planner.py::RelayNetwork.route_signal",
+                          params={"self": _OPQ, "source_pos": _OPQ, "sink_pos": _OPQ, "signal_name": _OPQ, "wire_color": _OPQ, "network_id": _OPQ}, effect=_route_p, verify=False,
+                          note="relay path search (contracted separately: C08 relay isolation); every hop of a returned path is within the span limit")
+get_placement_p = Contract(qualname="dsl_compiler/src/layout/layout_plan.py::LayoutPlan.get_placement", params={"args": _OPQ}, effect=_get_placement_p, verify=False,
+                           note="dictionary lookup of the placement (None when absent)")
+
+
+def _restore_reset(a):
+    NID_CALLS.clear(), ROUTE_CALLS.clear(), CHAIN_CALLS.clear(), ADDED_WIRES.clear(), DIST_CALLS.clear()
+    return True
+
+
+def _restore_post(a, res):
+    c = a.connection
+    me = a.self
+    src, dst = c._fields.get("@placement_src"), c._fields.get("@placement_dst")
+    unchanged = len(ADDED_WIRES) == 1 and ADDED_WIRES[0] is c and not CHAIN_CALLS
+    if src is None or dst is None or src.position is None or dst.position is None:
+        return unchanged and not ROUTE_CALLS
+    d, span = z3.Real("distance_between_ends"), me.relay_network.span_limit
+    if len(DIST_CALLS) != 1 or not (DIST_CALLS[0][0] is src.position and DIST_CALLS[0][1] is dst.position):
+        return False
+    if not ROUTE_CALLS:
+        # re-attached as created: only when the ends are within reach
+        return And(d <= span, unchanged)
+    if len(ROUTE_CALLS) != 1:
+        return False
+    r = ROUTE_CALLS[0]
+    old_counter = a.old.self._preserved_network_counter
+    cs = [d > span, len(r) == 5 and r[0] is src.position and r[1] is dst.position and r[2] is c.signal_name and r[3] is c.wire_color,
+          r[4] == -(old_counter + 1), me._preserved_network_counter == old_counter + 1]
+    path = c._fields.get("@relay_path")
+    if path is None:
+        cs += [unchanged, me._routing_failed is True]
+    else:
+        ok = len(CHAIN_CALLS) == 1 and not ADDED_WIRES
+        if ok:
+            k = CHAIN_CALLS[0]
+            ok = (k[0] is c.source_entity_id and k[1] is c.sink_entity_id and k[2] is c.signal_name and k[3] is c.wire_color and k[4] is path
+                  and k[5] is c.source_side and k[6] is c.sink_side)
+        cs.append(ok)
+    return And(*[x if not isinstance(x, bool) else z3.BoolVal(x) for x in cs])
+
+
+restore_preserved = Contract(
+    qualname=CPQ + "_restore_preserved_connection",
+    params={"self": ty.TObj("ConnectionPlanner", only=("ConnectionPlanner",)),
+            "connection": ty.TObj("WireConnection", only=("WireConnection",), ftypes=(
+                ("source_entity_id", ty.Str), ("sink_entity_id", ty.Str), ("signal_name", ty.Str), ("wire_color", ty.Str),
+                ("source_side", ty.TOpt(ty.Str)), ("sink_side", ty.TOpt(ty.Str))))},
+    requires=[("(reset capture)", _restore_reset), ("the counter of private network ids is non-negative", lambda a: a.self._preserved_network_counter >= 0)],
+    ensures=[("re-attached unchanged only within reach; otherwise bridged by relays on a fresh private network id, or the attempt is flagged as failed", _restore_post)],
+    uses={"opaque.get_placement": get_placement_p, "RelayNetwork.route_signal": route_signal_p, "ConnectionPlanner._create_relay_chain": create_chain,
+          "opaque.add_wire_connection": add_wire, "math.dist": math_dist, "opaque.info": "skip", "opaque.warning": "skip"},
+    dynamic_types={"self": {"layout_plan": ty.TOpaque("plan"), "relay_network": ty.TObj("RelayNetwork", only=("RelayNetwork",), ftypes=(("span_limit", ty.Real),)),
+                            "diagnostics": ty.TOpaque("diag"), "_preserved_network_counter": ty.Int, "_routing_failed": ty.Bool}},
+    properties=("C08",), min_obligations=3, no_replay=True)
+CONTRACTS += [restore_preserved, math_dist, add_wire, route_signal_p, get_placement_p]
